@@ -61,6 +61,12 @@ def run(ctx):
         r.check('is_done-after-batch', len(done) == 1 and fors and done[0].idx > hs[0].idx and not any(g[2] == 'loop' and g[1] == 'for' for g in done[0].guards), site,
                 built=[[g[1] for g in e.guards] for e in done])
 
+    with ctx.rule('R20.5', 'crossing channel closes resolve serially: the late CloseOk for a removed slot is tolerated', floor=2) as r:
+        import dispatch as D
+        m, arms, _ = D.read(ctx)
+        A.check_script(ctx, r, arms, ('Method', 'n', 'channel', 'CloseOk'))
+        A.check_script(ctx, r, arms, ('Method', 'n', 'channel', 'Close'))
+
     with ctx.rule('R20.4', 'token domain: every registered token has an arm', floor=1) as r:
         ok, why = panics.token_domain(ctx)
         r.check('token-domain', ok, ctx.site(HSE), built=why)
